@@ -39,6 +39,9 @@ def pairs(c, n):
         return []
     ps = [(r.randrange(n), r.randrange(n)) for _ in range(min(12, n * n))]
     ps += [(0, n - 1), (n - 1, 0), (0, 0)]
+    # neighbours in reading order, both ways round: where two positions are closest
+    for i in range(min(n - 1, 80)):
+        ps += [(i, i + 1), (i + 1, i)]
     return ps
 
 
